@@ -397,6 +397,10 @@ func (r *reader) initNodes(tr io.Reader) error {
 					if err != nil {
 						return fmt.Errorf("cannot get hardlink destination %q ==> %q (%d): %w", ent.Name, ent.LinkName, id, err)
 					}
+					if mode, _ := binary.Uvarint(b.Get(bucketKeyMode)); os.FileMode(uint32(mode)).IsDir() {
+						// A hardlink to a directory would make the tree cyclic (e.g. "d/l" -> "d").
+						return fmt.Errorf("%q is a hardlink to the directory %q", ent.Name, ent.LinkName)
+					}
 					numLink, _ := binary.Varint(b.Get(bucketKeyNumLink))
 					if err := putInt(b, bucketKeyNumLink, numLink+1); err != nil {
 						return fmt.Errorf("cannot put NumLink of %q ==> %q: %w", ent.Name, ent.LinkName, err)
